@@ -49,6 +49,8 @@ var zzClasses = map[string]zzClass{
 	"10.60.0.0/16":    {cidr: true},
 	"10.61.0.0/24":    {cidr: true},
 	"10.60.0.0/33":    {},
+	"10.60.0.0/16x":   {},
+	"127.0.0.8/24":    {cidr: true},
 	"[1, 2]":          {},
 }
 
